@@ -239,8 +239,16 @@ func (w *c30walker) walk(s gotypes.Type, f types.Type, path string) {
 			}
 			w.sig(a.Type().(*gotypes.Signature), b.Type().(*types.Signature), path+"."+a.Name())
 		}
-		for i := 0; i < s.NumEmbeddeds(); i++ {
-			w.walk(s.EmbeddedType(i), f.EmbeddedType(i), path+".embedded")
+		// the fork sorts the embedded types by name, go/types keeps the source order: compare as sets
+		se := make([]gotypes.Type, s.NumEmbeddeds())
+		fe := make([]types.Type, f.NumEmbeddeds())
+		for i := range se {
+			se[i], fe[i] = s.EmbeddedType(i), f.EmbeddedType(i)
+		}
+		sort.SliceStable(se, func(i, j int) bool { return gotypes.TypeString(se[i], c30qs) < gotypes.TypeString(se[j], c30qs) })
+		sort.SliceStable(fe, func(i, j int) bool { return types.TypeString(fe[i], c30qf) < types.TypeString(fe[j], c30qf) })
+		for i := range se {
+			w.walk(se[i], fe[i], path+".embedded")
 		}
 	case *gotypes.Named:
 		f, ok := f.(*types.Named)
@@ -458,13 +466,18 @@ func c30methodSets(st gotypes.Type, ft types.Type, name string, add func(string,
 		}
 		sm, fm := gotypes.NewMethodSet(s), types.NewMethodSet(f)
 		var sn, fn []string
+		gen := map[string]bool{} // methods whose signature mentions generics: excluded on both sides
 		for i := 0; i < sm.Len(); i++ {
 			if !c30generic(sm.At(i).Type(), 0) {
 				sn = append(sn, sm.At(i).Obj().Id())
+			} else {
+				gen[sm.At(i).Obj().Id()] = true
 			}
 		}
 		for i := 0; i < fm.Len(); i++ {
-			fn = append(fn, fm.At(i).Obj().Id())
+			if id := fm.At(i).Obj().Id(); !gen[id] {
+				fn = append(fn, id)
+			}
 		}
 		if strings.Join(sn, ",") != strings.Join(fn, ",") {
 			// methods promoted from generic instances (e.g. atomic.Pointer[T]) cannot be converted
